@@ -229,6 +229,9 @@ def check_extrapolation(ctx, drv, case, valid, complete_depth=None):
                                           {"what": "set_grid raises on a valid refinement tree", "status": status})
                         continue
                     i_state = impl_state(e)
+                    if si == 1 and ci == 1 and not fb:
+                        for c in e.slice_containers:
+                            ctx.count("container_size_%02d" % min(len(c.slices), 17))
                     if i_state != m_state:
                         ok = False
                         ctx.corr_break("C11/state", sub, {"impl": i_state[:600], "model": m_state[:600]})
@@ -500,6 +503,21 @@ def run_nd_calls(ctx, config, do_cache, calls, case):
                     ctx.violation("wrapper-weights", dict(tags, call=ci, d=d), case,
                                   {"failed": bad, "wrapper": str(got)[:300], "direct": str(want)[:300]})
                     return ok
+            # use site: the wrapper's own integrator (points x tensor weights) on a product of linear functions
+            cs = [(Fr(1, 2) + d, Fr(d + 1, 4) * (-1) ** d) for d in range(dim)]
+            val = float(np_scalar(w.integrate(prod_linear(cs), [0] * dim, list(w.a), list(w.b))))
+            exact = Fr(1)
+            for (c0, c1), g in zip(cs, grids):
+                exact *= c0 * (g[-1] - g[0]) + c1 * (g[-1] ** 2 - g[0] ** 2) / 2
+            scale = 1.0
+            for (c0, c1), g in zip(cs, grids):
+                scale *= float((abs(c0) + abs(c1) * max(abs(g[0]), abs(g[-1]))) * (g[-1] - g[0]))
+            if abs(val - float(exact)) > TOL_ORACLE * max(scale, abs(float(exact))):
+                ok = False
+                ctx.violation("wrapper-integrate", dict(tags, call=ci), case,
+                              {"what": "GlobalRombergGrid.integrate of a product of linear functions", "got": val,
+                               "exact": float(exact)})
+                return ok
     except Exception as exn:
         ok = False
         ctx.violation("wrapper-exception", dict(tags, exc=type(exn).__name__), case, {"msg": str(exn)[:200]})
@@ -667,6 +685,12 @@ def run_history(ctx, drv, hist):
                     bad.append((fname, "not the exact integral", got, float(exact)))
         gw = impl_weights(obj)[1]
         fw = impl_weights(fresh)[1] if st == "ok" else None
+        if gw is not None and len(gw) == len(eg):
+            f, fx = history_f("table")
+            own = sum(Fr(x) * fx(p) for x, p in zip(gw, eg))
+            val = float(obj.integrate(f))
+            if abs(val - float(own)) > 1e-11 * max(1.0, abs(float(own)), float(b - a) * 4):
+                bad.append(("table", "integrate() differs from sum get_weights()[i] f(grid[i])", val, float(own)))
         if gw != fw:
             bad.append(("get_weights", "differs from a fresh object", str(gw)[:200], str(fw)[:200]))
         if bad:
@@ -850,7 +874,272 @@ def check_factories(ctx, drv, r, n):
 
 # ------------------------------------------------------------------------------------------------ entry points
 
+def np_scalar(v):
+    try:
+        return v[0]
+    except Exception:
+        return v
+
+
+def prod_linear(cs):
+    """f(x) = prod_d (c0_d + c1_d x_d) as a sparseSpACE Function"""
+    from sparseSpACE.Function import Function
+
+    class ProdLinear(Function):
+        def eval(self, coordinates):
+            v = 1.0
+            for (c0, c1), x in zip(cs, coordinates):
+                v *= float(c0) + float(c1) * float(x)
+            return v
+
+    return ProdLinear()
+
+
+# ------------------------------------------------------------------------------------------------ process histories
+# several objects alive at once (sibling ExtrapolationGrid / GlobalRombergGrid objects with different options and equal
+# grids, the balanced classes, the GridBinaryTree singleton used in between), the caller's argument lists reused and
+# overwritten in place, returned weight lists overwritten by the caller, rarely used toggles in the middle.
+
+def run_process(ctx, drv, proc):
+    ex = E()
+    from sparseSpACE.Grid import GlobalRombergGrid, GlobalBalancedRombergGrid
+    grids = [([Fr(x) for x in g], [int(l) for l in lv]) for g, lv in proc["grids"]]
+    objs, cur = [], []
+    for spec in proc["objs"]:
+        if spec[0] == "EG":
+            o = ex.ExtrapolationGrid(slice_grouping=ex.SliceGrouping[spec[1]], slice_version=ex.SliceVersion[spec[2]],
+                                     container_version=ex.SliceContainerVersion[spec[3]],
+                                     force_balanced_refinement_tree=spec[4])
+        elif spec[0] == "GRG":
+            g0 = grids[0][0]
+            o = GlobalRombergGrid([float(g0[0])], [float(g0[-1])], do_cache=spec[4],
+                                  slice_grouping=ex.SliceGrouping[spec[1]], slice_version=ex.SliceVersion[spec[2]],
+                                  container_version=ex.SliceContainerVersion[spec[3]])
+        elif spec[0] == "BEG":
+            o = ex.BalancedExtrapolationGrid()
+        else:
+            g0 = grids[0][0]
+            o = GlobalBalancedRombergGrid([float(g0[0])], [float(g0[-1])])
+        objs.append(o)
+        cur.append(None)
+    # the caller's argument lists: one pair per object, overwritten in place for every further call on that object
+    # (ExtrapolationGrid keeps a reference to the list it was given, so a pair shared between objects would change the
+    # evaluation points of integrate() behind the back of the other object -- caller's responsibility, not part of C11)
+    bufs = [([], []) for _ in proc["objs"]]
+    ok = True
+
+    def expected(k):
+        """model weights of object k on its current grid (the model was compared with isolated objects before)"""
+        spec, (g, lv) = proc["objs"][k], grids[cur[k]]
+        if spec[0] in ("EG", "GRG"):
+            fb = spec[4] if spec[0] == "EG" else False
+            m = drv.ask("wts %d %d %d %d %s %s" % (dict(GROUPINGS)[spec[1]], dict(SLICES)[spec[2]], dict(CONTAINERS)[spec[3]],
+                                                   1 if fb else 0, rats(g), nats(lv)))
+            mg = drv.ask("state %d %d %d %d %s %s" % (dict(GROUPINGS)[spec[1]], dict(SLICES)[spec[2]], dict(CONTAINERS)[spec[3]],
+                                                     1 if fb else 0, rats(g), nats(lv)))
+            if not m.startswith("ok "):
+                return None, None
+            return parse_vec(m[3:]), parse_vec(mg[2:mg.index(" L ")])
+        m = drv.ask("bal %s %s" % (rats(g), nats(lv)))
+        if not m.startswith("ok "):
+            return None, None
+        w = parse_vec(m[3:])
+        return (w if spec[0] == "BEG" else w[1:-1]), (g if spec[0] == "BEG" else g[1:-1])
+
+    def fail(i, op, what, detail):
+        ctx.violation("process", {"op": op[0], "object": proc["objs"][op[1]][0] if len(op) > 1 and op[1] is not None else "-",
+                                  "what": what, "n_objects": len(objs)}, dict(proc, failed_at=i), detail)
+
+    for i, op in enumerate(proc["ops"]):
+        try:
+            if op[0] == "set":
+                k, gi = op[1], op[2]
+                g, lv = grids[gi]
+                buf_g, buf_l = bufs[k]
+                buf_g[:] = [float(x) for x in g]
+                buf_l[:] = list(lv)
+                spec = proc["objs"][k]
+                try:
+                    if spec[0] in ("EG", "BEG"):
+                        quiet(lambda: objs[k].set_grid(buf_g, buf_l))
+                    else:
+                        objs[k].a, objs[k].b = [buf_g[0]], [buf_g[-1]]
+                        if op[3]:
+                            objs[k].initialize_grid()
+                        objs[k].set_grid([buf_g], [buf_l])
+                    cur[k] = gi
+                except AssertionError:
+                    cur[k] = None
+                    if expected_ok(proc, drv, k, g, lv):
+                        fail(i, op, "set_grid raises AssertionError although the model accepts the grid", {})
+                        return False
+                if buf_g != [float(x) for x in g] or buf_l != list(lv):
+                    fail(i, op, "set_grid modified the caller's argument lists", {"grid": str(buf_g)[:200], "levels": str(buf_l)[:200]})
+                    return False
+            elif op[0] == "tree":                       # the GridBinaryTree singleton is used by somebody else
+                g, lv = grids[op[2]]
+                t = ex.GridBinaryTree()
+                try:
+                    t.init_tree([float(x) for x in g], list(lv))
+                    t.force_full_tree_invariant()
+                except AssertionError:
+                    pass
+            elif op[0] == "toggle":
+                k = op[1]
+                spec = proc["objs"][k]
+                if spec[0] == "EG":
+                    if op[2] == 0:
+                        objs[k].set_function(history_f("linear")[0])
+                    elif cur[k] is not None:
+                        objs[k].update_weights()
+                elif spec[0] == "GRG":
+                    objs[k].initialize_grid()
+            elif op[0] in ("obs", "mutate"):
+                k = op[1]
+                if cur[k] is None:
+                    continue
+                spec = proc["objs"][k]
+                mw, mg = expected(k)
+                if mw is None:
+                    continue
+                reps = []
+                for rep in range(2):
+                    if spec[0] in ("EG", "BEG"):
+                        reps.append(objs[k].get_weights())
+                    else:
+                        reps.append(list(objs[k].weights[0]))
+                got = [float(x) for x in reps[0]]
+                if [float(x) for x in reps[1]] != got:
+                    fail(i, op, "two successive reads of the weights differ", {})
+                    return False
+                if len(got) != len(mw) or any(not close(x, y, TOL_CORR) for x, y in zip(got, mw)):
+                    fail(i, op, "weights are not those of this object's options on its current grid",
+                         {"got": str(got)[:300], "model": str([float(y) for y in mw])[:300], "spec": spec,
+                          "grid": proc["grids"][cur[k]]})
+                    return False
+                if spec[0] == "EG":
+                    f, fx = history_f("table")
+                    val = float(objs[k].integrate(f))
+                    own = sum(Fr(x) * fx(p) for x, p in zip(got, mg))
+                    if abs(val - float(own)) > 1e-11 * max(1.0, abs(float(own)), 4 * float(mg[-1] - mg[0])):
+                        fail(i, op, "integrate() does not use the weights get_weights() returns on the current grid",
+                             {"integrate": val, "sum w f": float(own)})
+                        return False
+                if spec[0] == "GRG":
+                    cs = [(Fr(3, 4), Fr(-1, 2))]
+                    val = float(np_scalar(objs[k].integrate(prod_linear(cs), [0], list(objs[k].a), list(objs[k].b))))
+                    own = sum(Fr(x) * (cs[0][0] + cs[0][1] * p) for x, p in zip(got, mg))
+                    if abs(val - float(own)) > 1e-11 * max(1.0, abs(float(own))):
+                        fail(i, op, "the wrapper's integrator does not use its stored weights", {"integrate": val, "sum w f": float(own)})
+                        return False
+                if op[0] == "mutate" and not (spec[0] == "GRG" and spec[4]):
+                    # the caller overwrites the list it received (the cached list of a caching wrapper is the cache
+                    # entry itself in the unchanged code, so that case is not part of the stream)
+                    for rr in reps:
+                        for j in range(len(rr)):
+                            rr[j] = -7.0
+        except Exception as exn:
+            import traceback
+            fail(i, op, "exception " + type(exn).__name__, {"trace": traceback.format_exc()[-600:]})
+            return False
+    ctx.count("process_checked")
+    return ok
+
+
+def expected_ok(proc, drv, k, g, lv):
+    spec = proc["objs"][k]
+    if spec[0] in ("EG", "GRG"):
+        fb = spec[4] if spec[0] == "EG" else False
+        m = drv.ask("wts %d %d %d %d %s %s" % (dict(GROUPINGS)[spec[1]], dict(SLICES)[spec[2]], dict(CONTAINERS)[spec[3]],
+                                               1 if fb else 0, rats(g), nats(lv)))
+    else:
+        m = drv.ask("bal %s %s" % (rats(g), nats(lv)))
+    return m.startswith("ok ")
+
+
+def check_process(ctx, drv, case, prev):
+    r = ctx.rng
+    grid = [Fr(x) for x in case["grid"]]
+    lv = [int(l) for l in case["levels"]]
+    if len(grid) < 2:
+        return True
+    rel = [(x - grid[0]) / (grid[-1] - grid[0]) for x in grid]
+    dom = (grid[0], grid[-1])
+    mk = lambda rl, l: ([frac_str(x) for x in place_tree(rl, dom[0], dom[1])], list(l))
+    gl = [(list(case["grid"]), lv), mk(*mirrored(rel, lv))]
+    g2, l2 = gen_refinement_tree(r, len(grid), r.choice(["uniform", "deep", "breadth"]))
+    rel2 = [(x - g2[0]) / (g2[-1] - g2[0]) for x in g2]
+    gl.append(mk(rel2, l2))
+    full = case["kind"] in ("full", "complete") and len(grid) >= 3
+    cfg = lambda: [r.choice(GROUPINGS)[0], r.choice(SLICES)[0], r.choice(CONTAINERS)[0]]
+    c1 = cfg()
+    c2 = cfg()
+    while c2 == c1:
+        c2 = cfg()
+    objs = [["EG"] + c1 + [False], ["EG"] + c2 + [r.random() < 0.5], ["GRG"] + c1 + [True], ["GRG"] + c2 + [True],
+            ["GRG"] + cfg() + [False]]
+    if full:
+        objs += [["BEG"], ["GBRG"]]
+    n = len(objs)
+    ok_grids = [0, 1] if full else [0, 1, 2]          # the balanced classes only accept full trees
+    ops = [["set", k, 0, False] for k in range(n)] + [["obs", k] for k in range(n)]
+    for _ in range(r.randint(6, 12)):
+        x = r.random()
+        k = r.randrange(n)
+        gi = r.choice(ok_grids if objs[k][0] in ("BEG", "GBRG") else [0, 1, 2])
+        if x < 0.35:
+            ops.append(["set", k, gi, r.random() < 0.5])
+            ops.append(["obs", r.randrange(n)])
+        elif x < 0.6:
+            ops.append(["obs", k])
+        elif x < 0.75:
+            ops.append(["mutate", k])
+        elif x < 0.87:
+            ops.append(["tree", None, r.randrange(3)])
+        else:
+            ops.append(["toggle", k, r.randrange(2)])
+    ops += [["obs", k] for k in range(n)]
+    proc = {"kind": "process", "grids": gl, "objs": objs, "ops": ops}
+    return run_process(ctx, drv, proc)
+
+
+def gen_runs_tree(r):
+    """size switches of the containers: a complete grid of depth m whose first j slices are refined once more gives
+    runs of 2j fine and 2^m - j coarse slices (container sizes 1, 2, powers of two and every split 3, 5, 6, 7, ...)"""
+    m = r.randint(1, 4)
+    grid, lv = gen_complete(r, m)
+    j = r.randint(1, 2 ** m - 1)
+    side = r.random() < 0.5
+    pts = list(zip(grid, lv))
+    if side:
+        pts = [(grid[0] + grid[-1] - x, l) for x, l in reversed(pts)]
+    out = []
+    for i in range(len(pts) - 1):
+        out.append(pts[i])
+        if i < j:
+            out.append(((pts[i][0] + pts[i + 1][0]) / 2, max(pts[i][1], pts[i + 1][1]) + 1))
+    out.append(pts[-1])
+    if side:
+        a, b = out[0][0], out[-1][0]
+        out = [(a + b - x, l) for x, l in reversed(out)]
+    return [x for x, _ in out], [l for _, l in out]
+
+
 def run_case(ctx, drv, case, prev=None):
+    try:
+        return run_case_inner(ctx, drv, case, prev)
+    except Exception as exn:
+        import traceback
+        detail = {"exception": type(exn).__name__, "trace": traceback.format_exc()[-900:]}
+        if case["kind"] in ("tree", "complete", "full"):
+            ctx.violation("exception", {"stage": "observation", "exc": type(exn).__name__, "n_points": len(case["grid"])},
+                          dict(case, prev=prev), detail)
+        else:
+            ctx.corr_break("C11/exception-on-malformed-input", dict(case, prev=prev), detail)
+        return False
+
+
+def run_case_inner(ctx, drv, case, prev=None):
     kind = case["kind"]
     valid = kind in ("tree", "complete", "full")
     depth = case.get("depth") if kind == "complete" else None
@@ -865,6 +1154,8 @@ def run_case(ctx, drv, case, prev=None):
         ok = check_wrappers_nd(ctx, case, prev) and ok
         ok = check_histories(ctx, drv, case, prev) and ok
         ok = check_scales(ctx, drv, case) and ok
+        if ctx.tier == "thorough" or ctx.rng.random() < 0.6:
+            ok = check_process(ctx, drv, case, prev) and ok
     return ok
 
 
@@ -883,11 +1174,16 @@ def run(ctx):
                 "dimensions and over successive set_grid calls), object histories (one ExtrapolationGrid / BalancedExtrapolationGrid object "
                 "through 2-5 set_grid calls, integrate(const / linear / value table) and get_weights after each) and an interval-scale stream "
                 "(the tree placed on [a, a + 2^-e], e in 3..40, a in {0, 1, -2}, all grouped configurations, weights and clauses relative to "
-                "the interval length); "
+                "the interval length), process histories (sibling ExtrapolationGrid / GlobalRombergGrid objects with different options and equal "
+                "grids plus the balanced classes alive at once, interleaved set_grid / observations, caller lists reused in place, returned "
+                "weights overwritten, GridBinaryTree singleton and toggles in between, wrapper integrator route) and run-length trees (container "
+                "sizes 1, 2, 2^k and every split); "
                 "a case is one (grid, levels) pair, distinct by its canonical fractions, non-trivial if it has at least 3 points")
     ctx.assumptions = ["floating-point rounding is not modelled: dyadic grid points are exact in binary floating point, weights are compared at 1e-12, property clauses at 1e-9",
                        "the experimental LAGRANGE_* containers and ROMBERG_DEFAULT_CONST_SUBTRACTION slices are out of scope of C11 and not exercised"]
     drv = ctx.driver("drv_c11")
+    import romberg_gen, sys
+    romberg_gen.run(ctx, drv, sys.modules[__name__])      # translator tie of the Romberg coefficients / point weights (see romberg_gen.py)
     check_factories(ctx, drv, r, 40 if not thorough else 300)
     # complete grids: the degree clause
     for m in range(0, 6):
@@ -901,13 +1197,17 @@ def run(ctx):
     run_case(ctx, drv, case)
     ctx.case(case, nontrivial=False)
     n = 500 if not thorough else 6000
-    budget = 90 if not thorough else 560
+    budget = 90 if not thorough else 540
     prev = None
     for k in range(n):
         if ctx.time_left(budget) < 0:
             break
         x = r.random()
-        if x < 0.55:
+        if x < 0.1:
+            grid, lv = gen_runs_tree(r)
+            kind = "tree"
+            ctx.count("kind_runs")
+        elif x < 0.55:
             npts = r.choice([2, 3, 3, 4, 5, 6, 7, 8, 9, 11, 13, 17, 21, 25, 33])
             grid, lv = gen_refinement_tree(r, npts, r.choice(["uniform", "uniform", "deep", "breadth"]))
             kind = "tree"
@@ -935,6 +1235,14 @@ def run(ctx):
 def replay(ctx, rp):
     case = rp["case"]
     drv = ctx.driver("drv_c11")
+    if case.get("kind") == "process":
+        ok = run_process(ctx, drv, case)
+        print("replay: %s" % ("property holds on this process history" if ok else "REPRODUCED"))
+        for v in ctx.violations[:4]:
+            print("  violation:", v["probe"], v["tags"], str(v["detail"])[:600])
+        for d in ctx._drivers:
+            d.close()
+        return 0 if ok else 1
     if case.get("kind") == "scale":
         ok = run_scale(ctx, drv, dict(case, configs=[case["config"]] if "config" in case else case["configs"]))
         print("replay: %s" % ("property holds and model agrees on this case" if ok else "REPRODUCED"))
